@@ -358,6 +358,11 @@ func (c *fctx) call(x *ast.CallExpr, want string) (string, string) {
 		if ty := t.typ(x.Args[0]); strings.HasPrefix(ty, "list ") {
 			return "[]", ty
 		}
+	case name == "time.Now" && len(x.Args) == 0 && c.f.clk: // the explicit clock of the unit
+		return "now_", "Z"
+	case name == "time.Since" && len(x.Args) == 1 && c.f.clk:
+		v, _ := arg(0, "Z")
+		return "now_ - " + v, "Z"
 	case name == "time.Now" && len(x.Args) == 0: // one clock reading per call of the translated function
 		return t.svar("time_Now", "Z", x), "Z"
 	case name == "time.Since" && len(x.Args) == 1:
@@ -375,6 +380,15 @@ func (c *fctx) call(x *ast.CallExpr, want string) (string, string) {
 				case s.Sel.Name == "Sub" && len(x.Args) == 1: // saturation of Duration is not modelled
 					b, _ := arg(0, "Z")
 					return paren(v) + " - " + b, "Z"
+				case s.Sel.Name == "Add" && len(x.Args) == 1:
+					b, _ := arg(0, "Z")
+					return paren(v) + " + " + b, "Z"
+				case s.Sel.Name == "After" && len(x.Args) == 1:
+					b, _ := arg(0, "Z")
+					return "Z.ltb " + b + " " + paren(v), "bool"
+				case s.Sel.Name == "Before" && len(x.Args) == 1:
+					b, _ := arg(0, "Z")
+					return "Z.ltb " + paren(v) + " " + b, "bool"
 				}
 			}
 		}
@@ -455,6 +469,12 @@ func (c *fctx) foreign(x *ast.CallExpr, want string) (string, []string, string) 
 			}
 			if ft := t.methodSig(base, f.Sel.Name); ft != nil {
 				res, known = t.sigResults(ft), true
+			}
+			if t.unit.clock && t.recvMethod(x, c.f.recv) { // the outside world may answer differently at different times
+				if !c.atStmt {
+					t.fail(x, "call %s inside an expression (in a unit with a clock: assign the result first)", t.src(x.Fun))
+				}
+				args, tys = append(args, "now_"), append(tys, "Z")
 			}
 			args, tys = append(args, paren(v)), append(tys, paren(ty))
 		}
